@@ -355,7 +355,9 @@ class Ref:
             key = self.ev(ast[1], host, ov, memo)
             if type(key) is not int or key == 0:
                 raise Unknown('key')
-            for row in self.rows_of(ast[2], host):
+            table = self.rows_of(ast[2], host)
+            _ = [self.value(c, ov, memo) for row in table for c in row]      # an unknown cell anywhere in the table: no verdict
+            for row in table:
                 x = self.value(row[0], ov, memo)
                 if x == BL if isinstance(x, str) else False:
                     continue
@@ -366,6 +368,7 @@ class Ref:
             raise Unknown('key absent')
         if k == 'index':
             rows = self.rows_of(ast[1], host)
+            _ = [self.value(c, ov, memo) for row in rows for c in row]       # an unknown cell anywhere in the table: no verdict
             return self.value(rows[ast[2] - 1][ast[3] - 1], ov, memo)
         if k == 'column':
             return self.rows_of(ast[1], host)[0][0][1] + 1
@@ -1274,7 +1277,9 @@ def run(tier='quick', seed=0):
              f'constants, running totals 150 and 250 deep, column of 1001 rows, columns Z/AA/ZZ/AAA/XFD, entry at constant / blank / beyond the used range); '
              f'{n_rand} random workbooks (seed {seed}): 1-3 sheets, 4x6 grid + row 120 / rows 101-105 / columns AA-AB, 2..8 formula cells, formulas from '
              f'bare / absolute / qualified references, + - *, SUM MAX MIN COUNT over vectors, matrices, whole columns and other sheets, IF, SUMIF '
-             f'(literal and cell criteria), VLOOKUP, INDEX, repeated sub-expressions and repeated formula texts; every formula cell + one constant + '
+             f'(literal and cell criteria), VLOOKUP, INDEX, repeated sub-expressions and repeated formula texts, and (dependencies + entry-vs-whole only) '
+             f'COUNTIFS SUMIFS AVERAGEIFS MATCH XMATCH AVERAGE COUNTBLANK IFERROR AND OR CONCATENATE & ROUND IFS INDEX(MATCH) INDEX((a;b)) COUNT; a quoted '
+             f'title on a single reference before a quoted title on a range is left to its hand-made witness; every formula cell + one constant + '
              f'one blank as entry; 4 override stages (constants, blanks inside ranges, formula cells, re-override, a cell below the used range)')
     checks.append({
         'name': 'C03.monitor.closure',
